@@ -59,6 +59,15 @@ REG = {
         'scheme x host x port x path x query plus a malformed catalogue are split by the real functions and compared with the model.',
    note='All inputs are exact-size heap copies without terminator under ASan (overread = abort = violation), output buffers of every smaller size are swept. '
         'Latitude cells (DESIGN.md 7.1) are executed but not judged and counted in evidence.'),
+ 'C18': dict(module='alloc', engine='alloc', category='model_checking', design_ref='4/C18',
+   technique='TLA+ spec AllocFault (ledger and ownership rules) + exhaustive enumeration of the failing allocation index over a scenario catalogue on the real code, every run validated by TLC',
+   text='The allocator entry points coap_malloc_type / coap_realloc_type / coap_free_type are interposed at link time. For each scenario (context set-up and tear-down, CON/NON '
+        'request-response incl. 4.04, Block1 PUT of 3000 bytes, Block2 GET of 3000 bytes, observe register + notify + cancel, URI / optlist / string helpers, async response, OSCORE '
+        'exchange) the allocations are counted, then the scenario is run once per allocation index k with exactly that allocation returning NULL. Every allocation and release is logged '
+        'with an object number; TLC validates the ledger of each run (no release of an object that is not live, nothing live after tear-down), that a PDU handed to coap_send() is gone '
+        'when coap_send() reports failure, that release callbacks ran once per body, and that a canary exchange run afterwards with memory available - on the same endpoints when they '
+        'survived - succeeds. A crash or sanitizer report in a run is a violation of that run (the driver restarts after it).',
+   note='Allocations inside GnuTLS and libc are not failed. Thorough adds sampled pairs of failing indices.'),
  'C20': dict(module='wkc', engine='wkc', category='model_checking', design_ref='4/C20',
    technique='TLA+ operators for RFC 6690 listing/filter/window (TLC) + TLC judging every window, listing and block-wise GET of the real server',
    text='Wkc.tla defines Link, Listing(table, filter) with exact / prefix-* / space-separated-token matching on href, rt, if, rel and attribute values, '
